@@ -15,6 +15,11 @@ CHECKS = {
    level_text='Design: TLC checks ConvergedUids/ConvergedFlags on MailboxSync.tla (the change log is modelled exactly as one latest record per UID). Code: every replayed TLC behaviour and every random checkpoint-interleaved execution ends with NOOP on each session at quiescence and a probe of the store; TLC validates C02_ConvergedUids / C02_ConvergedFlags on each recorded execution.',
    level_note='Trusted: TLC, strict response parser, glass-box read of MailboxData._messages as ground truth. \\Recent is excluded from the flag comparison (session flag: C17). Dict backend only.',
    design_ref='DESIGN.md section 7 C02'),
+ 'C03': dict(
+   technique='MIME line splitting / header-body split / raw slicing transcribed into TLA+ over byte classes and over line tokens (WireMime.tla, WireMimeLines.tla); TLC enumerates every bounded string and checks the identity / slice / length laws; every enumerated string is concretised and pushed through MessageContent.parse and end to end through APPEND / FETCH / COPY / MOVE on dict and maildir',
+   level_text='TLC enumerates every string over the byte classes the code distinguishes up to length 6 (7 in thorough) and every message of up to 4-6 line tokens (multipart headers, folded lines, blank and whitespace-only lines, boundaries, nested parts) and checks Raw(b) = b, Header(b) + Body(b) = b, sizes and part sizes on the model; each state is concretised twice and executed: direct parse level, then APPEND as {n+} / {n} / ~{n+}, FETCH RFC822.SIZE BODY[] RFC822 BODY[HEADER] BODY[TEXT] BODYSTRUCTURE, every BODY[]<o.n> with o, n <= len+1, BODY[p] and BODY[p.MIME] for each announced part, the same after COPY and MOVE; the reference is identity, slice and length. A failure is excused only if the as-is model names a deviation for exactly that input and the server returned exactly the model\'s prediction.',
+   level_note='Exhaustive for small scopes only: lengths up to 64 KiB and deep MIME nesting are sampled (60 long messages in thorough). The byte-class abstraction is read off the code\'s character tests. Open known findings: get_raw on an empty line group, BODYSTRUCTURE size includes the header (pinned by a repo test), maildir re-serialises through the email package, maildir COPY loses content.',
+   design_ref='DESIGN.md section 7 C03'),
  'C04': dict(
    technique='random checkpoint-interleaved histories of APPEND/COPY/MOVE/EXPUNGE/RENAME/CREATE/DELETE/STATUS/SELECT by 2-3 sessions on the real server, arrival instants and content ids read from the store, validated by TLC against the UID observer spec Trace_Uids.tla; MailboxSync.tla behaviours replayed with maxuid compared',
    level_text='TLC judges every recorded execution against Trace_Uids.tla: each UID given out in a mailbox identity exceeds every UID ever given out there (also after expunging the highest), UIDNEXT from SELECT/EXAMINE/STATUS exceeds every UID existing at command start and is never above a UID assigned later, APPENDUID names the right UIDVALIDITY and exactly the UIDs under which that command\'s messages became visible, COPYUID pairs source and destination UIDs of identical content in order. Histories include RENAME (INBOX too), DELETE/CREATE of destinations, MOVE/COPY to self, concurrent appenders at every lock checkpoint.',
@@ -35,6 +40,11 @@ CHECKS = {
    level_text='TLC enumerates every value over the byte classes {CH SP DQ BS CR LF NUL HI} up to length 4, short and long (9,362 states), and checks that the chosen wire form parses back to the value under the grammar\'s quoted-string acceptor. Each value is concretised and (i) serialised by the real String.build / AString, (ii) used as mailbox name in CREATE/LIST/LSUB/SUBSCRIBE/STATUS/SELECT/DELETE and in ten header and MIME-parameter slots echoed by ENVELOPE, BODYSTRUCTURE, BODY, HEADER.FIELDS and SEARCH, on dict and maildir, plus MIME nesting shapes (depth 1-6, empty multiparts, empty message/rfc822); (iii) the strict parser is on the path of all ~7,600 connection transcripts of the C06 campaign (token lines in three states, stored messages x 28 FETCH attributes) and a malformed byte is clause C07_WellFormed of the observer spec.',
    level_note='Oracle: harness/respparse.py, written from RFC 3501 section 9 (+ LITERAL+, UIDPLUS, MOVE, BINARY, OBJECTID, ID), not pymap\'s own parser; structural checks of ENVELOPE and BODYSTRUCTURE included. NUL inside a (non-quoted) literal is not flagged: the property forbids it in quoted strings only and a verbatim store (C03) has no other way to send it. IMAP listener only. One open known finding (empty multipart).',
    design_ref='DESIGN.md section 7 C07'),
+ 'C08': dict(
+   technique='mailbox-name -> path computation of both maildir layouts transcribed into TLA+ (WirePath.tla) with kernel resolution of "", ".", ".."; TLC enumerates every bounded name and checks confinement; every enumerated name is sent in all 16 mailbox-argument slots on real maildir stores with the os layer wrapped to record every path touched, plus a two-user dict model (WirePathUsers.tla)',
+   level_text='TLC enumerates all names over {letter, ".", delimiter, non-ASCII, NUL} up to length 4 (6-7 in thorough: 195k states) for both layouts and computes, per command slot, the zones a name may touch; each name is concretised (existing / fresh / 300-char / non-ASCII / other user\'s name / NUL / INBOX variants) and sent by user1 as a literal in SELECT EXAMINE CREATE DELETE RENAME-from/-to SUBSCRIBE UNSUBSCRIBE STATUS APPEND COPY MOVE LIST-ref/-pattern LSUB-ref/-pattern on stores with two users; os.* / open / shutil.rmtree / NamedTemporaryFile are wrapped for the duration of the command, every touched path is resolved and compared with the allowed zones, and user2\'s tree, the credential files and the base directory are hashed before/after. Dict backend: user2\'s dump must be byte-identical.',
+   level_note='Every experiment runs inside a mkdtemp() scratch base; the wrappers refuse any destructive call that resolves outside it. Reads of the shared credential files during login and the system temp dir (C15 matter) are not C08 violations.',
+   design_ref='DESIGN.md section 7 C08'),
  'C09': dict(
    technique='authentication part of Conn.tla (IMAP and ManageSieve instances) checked by TLC; every (state, input) pair over credential classes x mechanisms x TLS/peer configurations executed on the real server, identity probed by per-user marker mailbox / script',
    level_text='TLC checks on every generated step that auth changes only through an exchange whose credentials verify for an existing user and (authzid = authcid or admin role), that LOGIN is refused while LOGINDISABLED is advertised, and that failed, cancelled, malformed, empty or oversized exchanges leave auth unchanged. Every (state, input) pair of the IMAP (19 x 72) and ManageSieve (19 x 90) graphs is executed on the real server (local and remote peer, TLS required or not, before/after STARTTLS), with three provisioned users (two ordinary, one admin); after each input the identity is probed through marker mailboxes / LISTSCRIPTS; plus seeded sequences of failed and successful attempts.',
@@ -60,6 +70,11 @@ CHECKS = {
    level_text='For each seeded command instance the harness first measures the parking points of its real execution (lock checkpoints) and then repeats the run once per point and fault kind, with a second session\'s command at a seeded placement; the content of all mailboxes is logged after EVERY driver step, so the invariant is evaluated at every instant between two critical sections, not only at the end. TLC checks: no content id ever vanishes (except \\Deleted messages while an EXPUNGE/CLOSE is in flight), a MOVE answered OK left each message exactly in the destination under the COPYUID UID, a multi-APPEND that did not end OK left nothing, a command answered NO/BAD left everything unchanged. Open known findings are tolerated INSIDE the observer (named deviation) so the remaining clauses are still checked on those traces.',
    level_note='Dict backend; lock acquisitions are possible suspension points (both open findings need that or a storage error). Process kill and os-level faults belong to the maildir backend and are not covered yet. The second session does not expunge or delete.',
    design_ref='DESIGN.md section 7 C14'),
+ 'C15': dict(
+   technique='maildir store at filesystem-operation granularity in TLA+ (MaildirStore.tla, Crash in every state, Restart = reset) checked by TLC; for every short history the real op trace is recorded in a child process and one child is killed before EVERY operation, a new backend on the crashed directory dumps everything, and TLC validates ops + acks + dump against Trace_Maildir.tla',
+   level_text='TLC checks AckedSurvive, ControlFilesReadable, NoUidReuse, acked flags / subscriptions / creations persist after Crash + Restart for 2 folders, <= 3 messages, histories of 3-4 operations (up to 2.9 M states in thorough); the measured op traces of the real code are compared with the model\'s programs command by command. Code: 24 histories (quick) / 206 x 4 configurations (thorough: both layouts x temp dir on the same / another filesystem) with every prefix of the op trace as crash point (os._exit in a forked child before operation k), about 1,900 / 36,000 crash points; the restarted server\'s SELECT/UID FETCH/LIST/LSUB/STATUS dump, the acknowledgement log and the op prefix form one trace judged by TLC. Carries the maildir half of C04 (no UID reuse across restart).',
+   level_note='Crash = process kill; no power-loss reordering (fsync out of scope). Leftover lock files are aged past their 600 s expiry before the post-restart dump (the property does not say "immediately"); counted in the evidence. Open known findings tolerated inside the observer: EXDEV with the temp dir on another filesystem, COPY loses content, MOVE-back duplicate, half-made maildir after a kill between the mkdirs.',
+   design_ref='DESIGN.md section 7 C15'),
  'C16': dict(
    technique='random checkpoint-interleaved executions with idling sessions on slow (drain-gated) connections on the real server, run until no task is runnable, validated by TLC against the observer spec Trace_Sync.tla (IdleCheck / IdleEnd clauses); MailboxSync.tla behaviours replayed as in C01',
    level_text='Seeded schedules place bursts of APPEND/STORE/EXPUNGE/COPY/MOVE by 1-2 writers at every parking point of 1-2 idling sessions, including while the idler is blocked in drain() writing a previous notification; after the burst the loop runs until nothing is runnable and TLC checks on the recorded execution that every change made since "+ idling" (message added, removed, flags changed) has reached the idling client with no further stimulus, that pushed data obeys the C01 clauses, that DONE ends IDLE with OK and anything else with BAD.',
@@ -70,6 +85,11 @@ CHECKS = {
    level_text='Design: TLC checks RecentOnce on MailboxSync.tla (a message\'s \\Recent lives in at most one place: the stored bit or one read-write selection). Code: every recorded execution is judged by TLC against Trace_Recent.tla: at most one read-write selection is ever shown \\Recent on a message; a message that arrived while no read-write selection existed is shown \\Recent to the first read-write selection made afterwards (read-only ones do not consume it); the RECENT count given agrees with the flags seen after a full FETCH; FETCH data received during the session\'s own STORE never changes \\Recent. Arrival time is taken from the store (glass box) so that the order of arrival and selection is exact; where a SELECT is in flight at arrival nothing is demanded.',
    level_note='Trusted: TLC, strict response parser, glass-box read of the store for arrival instants. A selection = one SELECT/EXAMINE until the next SELECT/CLOSE/logout. Dict backend only; maildir (claim_recent generator defect known from reading) not covered yet. One open known finding (StaleRecentPick) needs a lock acquisition to suspend.',
    design_ref='DESIGN.md section 7 C17'),
+ 'C18': dict(
+   technique='string / modified-UTF-7 / sequence-set / flag / date codecs transcribed into TLA+ (WireString.tla, WireUtf7.tla, WireUtf7Dec.tla, WireSeqSet.tla) with the spelling, re-serialisation and round-trip laws as invariants (decoder termination as a liveness property); every enumerated value executed on the real parsers and end to end as sibling commands in every spelling',
+   level_text='TLC enumerates every value over the byte classes of the string codecs up to length 4 (5 in thorough), its legal spellings (atom / quoted / {n} / {n+} / ~{n+}) and three suffixes and checks that each parses to the value consuming exactly its own bytes and that bytes(parse(x)) parses again to the same value; every modified-UTF-7 name over {CH & - , U CTL} round-trips; sequence sets, flags and dates round-trip. Each state is executed on the real parsers; six command templates (CREATE, STATUS+SELECT, LOGIN user / password, SEARCH, FETCH HEADER.FIELDS) are sent once per spelling (synchronising literals through the real continuation loop, random letter case of the command word) to fresh identical servers and the responses compared; LIST/STATUS echo is decoded with an independent decoder; the decoder runs on every token string under a CPU-time watchdog.',
+   level_note='Small-scope exhaustive; values longer than the bounds are sampled. Open known findings (small repairs proposed): stray byte in QuotedString._raw, HEADER.FIELDS spelling, "}" in atoms, LITERAL+ tail reframed, years below 1000, 4096-byte literal limit.',
+   design_ref='DESIGN.md section 7 C18'),
  'C19': dict(
    technique='ManageSieve reference model in TLA+ (Sieve.tla: gate + per-user name->bytes map with active name) checked by TLC; every edge of its state graph and seeded -simulate behaviours replayed on the real ManageSieve listener with response, LISTSCRIPTS/GETSCRIPT probes of both users and authentication state compared after every step',
    level_text='TLC checks the model\'s invariants (at most one active, active is stored, users isolated, no effect before authentication, PUT then GET, RENAME keeps content and active status, active not deletable) and dumps the graph; every edge (about 45k after pruning RFC latitude the server does not take) is replayed on the real server with three connections and two probe connections, comparing after EVERY step the parsed response, both users\' script maps and the authentication state; plus 160 (quick) / 8000 (thorough) simulated behaviours of the full scope and a byte sweep over 10 name families and 13 content families in quoted and literal spellings.',
